@@ -470,7 +470,8 @@ fn gen_random(rng: &mut Rng, nfiles: usize, nsources: usize, maxlen: usize) -> V
     let n = rng.range(1, maxlen);
     let mut h = vec![];
     let mut inits = 0u64;
-    let protocol = rng.chance(7, 8); // mostly read results the way loader-core does
+    let protocol = rng.chance(3, 4);
+    let mut stored = false; // has a call that certainly stores a result been made? // mostly read results the way loader-core does
     for _ in 0..n {
         let pick_t = |rng: &mut Rng, inits: u64| -> u64 {
             match rng.below(20) {
@@ -494,13 +495,14 @@ fn gen_random(rng: &mut Rng, nfiles: usize, nsources: usize, maxlen: usize) -> V
         else if k < 66 { let (f, s) = pick_fs(rng); h.push(Call::Load(pick_t(rng, inits), f, s)); }
         else if k < 82 { h.push(Call::Emit(pick_t(rng, inits))); }
         else if k < 92 { h.push(Call::Free(pick_t(rng, inits))); }
-        else if !h.is_empty() || rng.chance(1, 10) { h.push(Call::ReadResult); }
+        else if stored || rng.chance(1, 25) { h.push(Call::ReadResult); }
         if h.len() > before && !matches!(h[before], Call::Free(_) | Call::ReadResult) {
             // loader-core reads the result after status()/emit() and after any failure (ReadIfSet);
             // a raw ReadResult after a successful initiate/load shows the stale previous result (or
             // aborts if there is none yet), which is legal at ABI level but rarer here.
+            if matches!(h[before], Call::Required(_) | Call::Emit(_)) { stored = true; } // these always store a result
             if protocol { if rng.chance(9, 10) { h.push(Call::ReadIfSet); } }
-            else if rng.chance(1, 3) { h.push(Call::ReadResult); }
+            else if rng.chance(1, 3) && (stored || rng.chance(1, 25)) { h.push(Call::ReadResult); }
         }
     }
     h
